@@ -477,6 +477,17 @@ def do_replay(path):
     v = body.get("violation", {})
     print(json.dumps(v, indent=1))
     case = v.get("case") or (v.get("example_disagreement") or {}).get("case")
+    if case and v.get("isa_probe"):
+        # a call that executes an instruction of a feature the flags report absent: run it again under the probe
+        build_all()
+        import isaprobe
+        hits, info = isaprobe.probe(os.path.join(BUILD, "bin", "harness"), [case], v.get("godebug"), v["isa_probe"])
+        print("instruction-set probe under GODEBUG=%s: %d instruction(s) of the absent feature executed" % (v.get("godebug"), len(hits)))
+        for h in hits:
+            print("  %s  in %s  <- %s" % (h["insn"], h["where"], h["frames"]))
+        if not info.get("available"):
+            print("  (probe unavailable: %s)" % info.get("reason"))
+        return 0
     if case and case.split("\t")[0] in FN_KINDS:
         build_all()
         m = vlib.model_on([case])[0]
